@@ -1,0 +1,8 @@
+//go:build !verif
+
+// Package verifhook provides schedule yield points for the verification harness.
+// Without the "verif" build tag every function is an empty, inlined no-op.
+package verifhook
+
+// Yield marks a named point at which the verification harness may interpose.
+func Yield(point string) {}
